@@ -89,6 +89,17 @@ func shapes() map[string]*gprog.Prog {
 		"wf-eager":      {Mode: gprog.MWorkflow, Nodes: L("a", "b", "c"), Edges: E("start>a", "start>b", "a>c", "c>end", "b>end")},
 		"wf-latejoin":   {Mode: gprog.MWorkflow, Nodes: L("a", "b", "c"), Edges: E("start>a", "start>b", "a>c", "b>c", "c>end", "a>end")},
 		"wf-fan3":       {Mode: gprog.MWorkflow, Nodes: L("a", "b", "c"), Edges: E("start>a", "start>b", "start>c", "a>end", "b>end", "c>end")},
+		// a node (x) with a plain predecessor (a) and a branch (on b) that does not select it: it becomes ready
+		// through a dependency report or through a skip report, whichever completion the run loop collects last
+		"wf-branch-skip": {Mode: gprog.MWorkflow, Nodes: L("a", "b", "x", "y"),
+			Edges:    []gprog.Edge{{From: "start", To: "a"}, {From: "start", To: "b"}, {From: "a", To: "x"}, {From: "b", To: "y", NoControl: true}, {From: "x", To: "end"}, {From: "y", To: "end"}},
+			Branches: []gprog.Branch{{From: "b", Targets: []string{"y", "x"}}}},
+		// the same with the branch selecting x (y is skipped, END must not wait for it)
+		"wf-branch-take": {Mode: gprog.MWorkflow, Nodes: L("a", "b", "x", "y"),
+			Edges:    []gprog.Edge{{From: "start", To: "a"}, {From: "start", To: "b"}, {From: "a", To: "x"}, {From: "b", To: "y", NoControl: true}, {From: "x", To: "end"}, {From: "y", To: "end"}},
+			Branches: []gprog.Branch{{From: "b", Targets: []string{"x", "y"}}}},
+		"dag-branch-skip": {Mode: gprog.MDag, Nodes: L("a", "b", "x", "y"), Edges: E("start>a", "start>b", "a>x", "x>end", "y>end"),
+			Branches: []gprog.Branch{{From: "b", Targets: []string{"y", "x"}}}},
 		"pregel-sub":    {Mode: gprog.MPregel, Nodes: []gprog.Node{{Key: "a", Kind: gprog.KLambda}, {Key: "s", Kind: gprog.KSub, Sub: sub}}, Edges: E("start>a", "start>s", "a>end", "s>end")},
 		"wf-sub":        {Mode: gprog.MWorkflow, Nodes: []gprog.Node{{Key: "a", Kind: gprog.KLambda}, {Key: "s", Kind: gprog.KSub, Sub: sub}}, Edges: E("start>a", "start>s", "a>end", "s>end")},
 	}
@@ -239,7 +250,7 @@ func main() {
 	if !quick {
 		bounds = []int{0, 1, 2, 3}
 	}
-	quickShapes := map[string]bool{"pregel-fan2": true, "pregel-fan3": true, "dag-unequal": true, "wf-eager": true, "wf-latejoin": true, "pregel-sub": true}
+	quickShapes := map[string]bool{"pregel-fan2": true, "pregel-fan3": true, "dag-unequal": true, "wf-eager": true, "wf-latejoin": true, "pregel-sub": true, "wf-branch-skip": true, "dag-branch-skip": true}
 	for _, sn := range names {
 		if quick && !quickShapes[sn] {
 			continue
